@@ -560,7 +560,7 @@ func main() {
 				t.Par(len(hsAll), func(i int) {
 					h := hsAll[i]
 					hd, _ := streams.Wire(h)
-					for _, mode := range []string{"read", "discard"} {
+					for _, mode := range []string{"read", "discard", "discard-after-1-byte"} {
 						for _, q := range ps {
 							mode, q := mode, q
 							t.Do(func() string {
@@ -571,6 +571,9 @@ func main() {
 								d := drivers.ReaderLoop(7)
 								if mode == "discard" {
 									d = drivers.ReaderDiscard(0)
+								} else if mode == "discard-after-1-byte" {
+									// may stop inside a multi-byte sequence of a text message
+									d = drivers.ReaderDiscard(1)
 								}
 								var res drivers.Result
 								d.Run(env.NewSrc(append(append([]byte{}, hd...), qd...)), side, drivers.Cfg{CheckUTF8: true}, &res)
